@@ -1696,3 +1696,345 @@ twin('C17-twin-flatten-unsorted', 'C17',
        "        all_markers = list(all_markers)\n"
        "        all_markers.sort()\n",
        "        all_markers = list(all_markers)\n")])
+
+
+# ----------------------------------------------------------------------
+# C02 / C06 (kernel axes, subsets)
+# ----------------------------------------------------------------------
+mutant('C02-with-replacement', 'C02', 'marker subset drawn with replacement',
+       [(P+'type_assignment/election.py',
+         "rng.choice(marker_idx, n_bootstrap, replace=False)",
+         "rng.choice(marker_idx, n_bootstrap, replace=True)")],
+       'R-IDIOM/draw-without-replacement')
+mutant('C02-integers-draw', 'C02', 'marker subset drawn with rng.integers',
+       [(P+'type_assignment/election.py',
+         "rng.choice(marker_idx, n_bootstrap, replace=False)",
+         "rng.integers(0, n_markers, n_bootstrap)")],
+       'R-IDIOM/draw-without-replacement')
+mutant('C02-second-draw-for-reference', 'C02',
+       'the reference columns use a second, independent draw',
+       [(P+'type_assignment/election.py',
+         "        bootstrap_reference = reference_gene_data[:, chosen_idx]\n",
+         "        chosen_ref = np.sort(\n"
+         "            rng.choice(marker_idx, n_bootstrap, replace=False))\n"
+         "        bootstrap_reference = reference_gene_data[:, chosen_ref]\n")],
+       'R-SAMEVAL/one-subset-both-sides')
+mutant('C02-mean-wrong-axis', 'C02',
+       'the mean is taken over cells instead of genes',
+       [(P+'utils/distance_utils.py',
+         "    mu = np.mean(data, axis=1)\n    data = (data.transpose()-mu)\n",
+         "    mu = np.mean(data, axis=0)\n    data = (data-mu).transpose()\n")],
+       'R-AXIS')
+mutant('C02-norm-wrong-axis', 'C02',
+       'the L2 norm is taken along the cell axis',
+       [(P+'utils/distance_utils.py',
+         "    norm = np.sqrt(np.sum(data**2, axis=0))\n",
+         "    norm = np.sqrt(np.sum(data**2, axis=1))\n")],
+       'R-AXIS')
+mutant('C02-argmax-wrong-axis', 'C02',
+       'the nearest neighbour is the arg-max over query cells',
+       [(P+'utils/distance_utils.py',
+         "    max_idx = np.argmax(correlation_array, axis=0)\n",
+         "    max_idx = np.argmax(correlation_array, axis=1)\n")],
+       'R-AXIS')
+mutant('C02-transpose-flags-swapped', 'C02',
+       'the transposition flags of the two normalisations are swapped',
+       [(P+'utils/distance_utils.py',
+         "    arr0 = _subtract_mean_and_normalize_cpu(arr0, "
+         "do_transpose=False)\n"
+         "    arr1 = _subtract_mean_and_normalize_cpu(arr1, "
+         "do_transpose=True)\n",
+         "    arr0 = _subtract_mean_and_normalize_cpu(arr0, "
+         "do_transpose=True)\n"
+         "    arr1 = _subtract_mean_and_normalize_cpu(arr1, "
+         "do_transpose=False)\n")],
+       'R-AXIS')
+mutant('C02-votes-transposed', 'C02',
+       'votes are tallied at (reference row, cell)',
+       [(P+'type_assignment/election.py',
+         "        votes[query_idx, nearest_neighbors] += 1\n",
+         "        votes[nearest_neighbors, query_idx] += 1\n")],
+       'R-AXIS')
+mutant('C02-aggregate-wrong-axis', 'C02',
+       'votes of the leaves of a child are summed over cells',
+       [(P+'type_assignment/election.py',
+         "        vote_array_agg[:, new_idx] = vote_array[:, col_idx]"
+         ".sum(axis=1)\n",
+         "        vote_array_agg[:, new_idx] = vote_array[:, col_idx]"
+         ".sum(axis=0)\n")],
+       'R-AXIS')
+mutant('C02-rank-wrong-axis', 'C02',
+       'candidates are ranked along the cell axis',
+       [(P+'type_assignment/election.py',
+         "    sorted_by_votes = np.argsort(votes, axis=1)[:, -1::-1]\n",
+         "    sorted_by_votes = np.argsort(votes, axis=0)[:, -1::-1]\n")],
+       'R-AXIS/ranking')
+mutant('C02-rank-ascending', 'C02',
+       'the ranking is not reversed (least voted first)',
+       [(P+'type_assignment/election.py',
+         "    sorted_by_votes = np.argsort(votes, axis=1)[:, -1::-1]\n",
+         "    sorted_by_votes = np.argsort(votes, axis=1)\n")],
+       'R-AXIS/ranking')
+mutant('C02-all-leaves-compete', 'C02',
+       'every leaf of the taxonomy competes at every node',
+       [(P+'type_assignment/matching.py',
+         "    children = list(leaf_to_type.keys())\n    children.sort()\n",
+         "    children = taxonomy_tree.all_leaves\n    children.sort()\n")],
+       'R-PROV/leaves-under-parent')
+mutant('C02-cache-roles-swapped', 'C02',
+       'query names are indexed with reference positions',
+       [(P+'type_assignment/matching.py',
+         "        reference_markers = this_grp['reference'][()]\n"
+         "        raw_query_markers = this_grp['query'][()]\n",
+         "        reference_markers = this_grp['query'][()]\n"
+         "        raw_query_markers = this_grp['reference'][()]\n")],
+       'R-ROLE/cache-index-space')
+mutant('C02-no-gene-identity-check', 'C02',
+       'the identity of the two gene lists is no longer required',
+       [(P+'type_assignment/matching.py',
+         "    if query_data.gene_identifiers != "
+         "reference_data.gene_identifiers:\n"
+         "        raise RuntimeError(\n"
+         "            \"Mismatch between query marker genes and reference "
+         "marker genes\")\n", "")],
+       'R-MUST/same-genes-asserted')
+mutant('C02-select-before-normalise', 'C02',
+       'chunks are down-selected to markers before CPM normalisation',
+       [(P+'type_assignment/election.py',
+         "        if data.normalization != 'log2CPM':\n"
+         "            data.to_log2CPM_in_place()\n\n"
+         "        # downsample to just include marker genes\n"
+         "        # to limit memory footprint\n"
+         "        data.downsample_genes_in_place(all_query_markers)\n",
+         "        data.downsample_genes_in_place(all_query_markers)\n"
+         "        if data.normalization != 'log2CPM':\n"
+         "            data.to_log2CPM_in_place()\n")],
+       'R-TYPESTATE/normalise-before-select')
+
+twin('C02-twin-permutation-draw', 'C02',
+     'subset drawn as permutation(n)[:k]',
+     [(P+'type_assignment/election.py',
+       "        chosen_idx = rng.choice(marker_idx, n_bootstrap, "
+       "replace=False)\n",
+       "        chosen_idx = rng.permutation(marker_idx)[:n_bootstrap]\n")])
+twin('C02-twin-method-mean', 'C02', 'mean written as a method',
+     [(P+'utils/distance_utils.py',
+       "    mu = np.mean(data, axis=1)\n",
+       "    mu = data.mean(axis=1)\n")])
+twin('C02-twin-rename-kernel-local', 'C02',
+     'rename a local of the kernel',
+     [(P+'utils/distance_utils.py', "max_idx", "best_row", 8)])
+
+mutant('C06-cpm-chunk-total', 'C06',
+       'CPM uses the total of the whole chunk',
+       [(P+'cell_by_gene/utils.py',
+         "    row_sums = np.sum(data, axis=1)\n",
+         "    row_sums = np.sum(data)\n")],
+       'R-AXIS')
+mutant('C06-cpm-column-total', 'C06',
+       'CPM divides by per-gene totals over the cells of the chunk',
+       [(P+'cell_by_gene/utils.py',
+         "    row_sums = np.sum(data, axis=1)\n"
+         "    denom = np.where(row_sums > 0.0, row_sums, 1.)\n"
+         "    cpm = data.transpose()/denom\n"
+         "    cpm = 1.0e6*cpm\n    return cpm.transpose()\n",
+         "    row_sums = np.sum(data, axis=0)\n"
+         "    denom = np.where(row_sums > 0.0, row_sums, 1.)\n"
+         "    cpm = data/denom\n"
+         "    cpm = 1.0e6*cpm\n    return cpm\n")],
+       'R-AXIS')
+mutant('C06-sort-cells', 'C06',
+       'the query block is sorted along the cell axis before correlation',
+       [(P+'utils/distance_utils.py',
+         "    correlation_array = correlation_dot(baseline_array, "
+         "query_array)\n",
+         "    query_array = np.sort(query_array, axis=0)\n"
+         "    correlation_array = correlation_dot(baseline_array, "
+         "query_array)\n")],
+       'R-AXIS/row-independence')
+mutant('C06-writeback-shifted', 'C06',
+       'results written back through a shifted index',
+       [(P+'type_assignment/election.py',
+         "            for i_cell, assigned_type, prob, corr, r_up in zip(\n"
+         "                            chosen_idx,\n",
+         "            for i_cell, assigned_type, prob, corr, r_up in zip(\n"
+         "                            np.roll(chosen_idx, 1),\n")],
+       'R-SAMEVAL/write-back')
+mutant('C06-runner-up-row-mixed', 'C06',
+       'runner-up tuples read row 0 of the ranking for every cell',
+       [(P+'type_assignment/election.py',
+         "        [(reference_types[sorted_by_votes[i_row, i_col]],\n",
+         "        [(reference_types[sorted_by_votes[0, i_col]],\n")],
+       'R-AXIS/runner-up-rows')
+twin('C06-twin-keepdims', 'C06',
+     'CPM written with keepdims broadcasting',
+     [(P+'cell_by_gene/utils.py',
+       "    row_sums = np.sum(data, axis=1)\n"
+       "    denom = np.where(row_sums > 0.0, row_sums, 1.)\n"
+       "    cpm = data.transpose()/denom\n"
+       "    cpm = 1.0e6*cpm\n    return cpm.transpose()\n",
+       "    row_sums = np.sum(data, axis=1)\n"
+       "    denom = np.where(row_sums > 0.0, row_sums, 1.)\n"
+       "    cpm = (data.transpose()/denom).transpose()\n"
+       "    cpm = 1.0e6*cpm\n    return cpm\n")])
+
+
+# ----------------------------------------------------------------------
+# C07
+# ----------------------------------------------------------------------
+mutant('C07-no-negative-check', 'C07',
+       'the non-negativity check is removed',
+       [(P+'type_assignment/election_runner.py',
+         "    if normalization == 'raw':\n"
+         "        # check that data is >= 0\n",
+         "    if normalization == 'never':\n"
+         "        # check that data is >= 0\n")],
+       'R-MUST/negative-raw-rejected')
+mutant('C07-negative-warns-with-log', 'C07',
+       'with a log, negative raw data only warns',
+       [(P+'type_assignment/election_runner.py',
+         "                \"in order to convert from 'raw' to 'log2CPM' "
+         "data)\"\n            )\n"
+         "            if log is not None:\n"
+         "                log.error(error_msg)\n",
+         "                \"in order to convert from 'raw' to 'log2CPM' "
+         "data)\"\n            )\n"
+         "            if log is not None:\n"
+         "                log.warn(error_msg)\n")],
+       'R-ARMS/log-arms')
+mutant('C07-probe-other-file', 'C07',
+       'the probe inspects the statistics file',
+       [(P+'type_assignment/election_runner.py',
+         "is_data_ge_zero(h5ad_path=query_h5ad_path, layer='X')",
+         "is_data_ge_zero(h5ad_path=precomputed_stats_path, layer='X')")],
+       'R-MUST/negative-raw-rejected', 'probe-file')
+mutant('C07-probe-accepts-negative', 'C07',
+       'the probe says True for a negative minimum',
+       [(P+'validation/utils.py',
+         "    if minmax[0] < 0.0:\n        return False, minmax[0]\n",
+         "    if minmax[0] < 0.0:\n        return True, minmax[0]\n")],
+       'R-MUST/probe-verdict')
+mutant('C07-class-guard-removed', 'C07',
+       'to_log2CPM_in_place no longer refuses a down-selected matrix',
+       [(P+'cell_by_gene/cell_by_gene.py',
+         "                \"CellByGeneMatrix already is not raw\")\n\n"
+         "        if self._genes_downsampled:\n",
+         "                \"CellByGeneMatrix already is not raw\")\n\n"
+         "        if False:\n", 1)],
+       'R-TYPESTATE/class-guard')
+mutant('C07-columns-by-position', 'C07',
+       'marker columns are taken by position in the marker list',
+       [(P+'cell_by_gene/cell_by_gene.py',
+         "        idx_array = np.array([self.gene_to_col[n] for n in "
+         "selected_genes],\n                             dtype=int)\n",
+         "        idx_array = np.arange(len(selected_genes), dtype=int)\n")],
+       'R-ROLE/columns-by-name')
+mutant('C07-stale-name-map', 'C07',
+       'the name -> column map is not rebuilt after in-place selection',
+       [(P+'cell_by_gene/cell_by_gene.py',
+         "        self._gene_identifiers = copy.deepcopy(selected_genes)\n"
+         "        self._create_gene_to_col()\n",
+         "        self._gene_identifiers = copy.deepcopy(selected_genes)\n")],
+       'R-ROLE/columns-by-name')
+mutant('C07-no-marker-selection-before-dispatch', 'C07',
+       'chunks are dispatched with all genes',
+       [(P+'type_assignment/election.py',
+         "        data.downsample_genes_in_place(all_query_markers)\n", "")],
+       'R-TYPESTATE/normalise-before-select/selected-before-dispatch')
+twin('C07-twin-probe-positional', 'C07',
+     'probe called with positional path',
+     [(P+'type_assignment/election_runner.py',
+       "is_data_ge_zero(h5ad_path=query_h5ad_path, layer='X')",
+       "is_data_ge_zero(query_h5ad_path)")])
+
+
+# ----------------------------------------------------------------------
+# C08
+# ----------------------------------------------------------------------
+mutant('C08-serialize-other-cache', 'C08',
+       'the marker report is read from the lookup file, not the cache',
+       [(P+'cli/from_specified_markers.py',
+         "        marker_cache_path=query_marker_tmp,\n"
+         "        taxonomy_tree=taxonomy_tree)\n",
+         "        marker_cache_path=marker_lookup_path,\n"
+         "        taxonomy_tree=taxonomy_tree)\n")],
+       'R-SAMEVAL/marker-cache')
+mutant('C08-writer-swaps-maps', 'C08',
+       'reference positions are looked up in the query name map',
+       [(P+'type_assignment/marker_cache_v2.py',
+         "                these_reference.append(reference_name_to_int[gene])"
+         "\n                these_query.append(query_name_to_int[gene])\n",
+         "                these_reference.append(query_name_to_int[gene])\n"
+         "                these_query.append(query_name_to_int[gene])\n")],
+       'R-ROLE/cache-writer')
+mutant('C08-sort-reference-only', 'C08',
+       'only the reference positions are sorted',
+       [(P+'type_assignment/marker_cache_v2.py',
+         "                these_query = these_query[sorted_dex]\n", "")],
+       'R-ROLE/co-permutation')
+mutant('C08-root-error-dropped', 'C08',
+       'a root without markers no longer raises',
+       [(P+'type_assignment/marker_cache_v2.py',
+         "                if parent_str == 'None':\n"
+         "                    error_msg += warning_msg\n"
+         "                    continue\n\n"
+         "                if log is not None:\n"
+         "                    log.warn(warning_msg)",
+         "                if log is not None:\n"
+         "                    log.warn(warning_msg)")],
+       'R-MUST/marker-error-raises')
+mutant('C08-missing-ref-marker-warns', 'C08',
+       'a marker unknown to the reference only warns when a log is given',
+       [(P+'type_assignment/marker_cache_v2.py',
+         "        msg += f\"{missing_reference_markers}\\n\"\n"
+         "        if log is None:\n"
+         "            raise RuntimeError(msg)\n"
+         "        else:\n"
+         "            log.error(msg)\n",
+         "        msg += f\"{missing_reference_markers}\\n\"\n"
+         "        if log is None:\n"
+         "            raise RuntimeError(msg)\n"
+         "        else:\n"
+         "            log.warn(msg)\n")],
+       'R-ARMS/log-arms')
+mutant('C08-single-child-needs-markers', 'C08',
+       'validate_marker_lookup also demands markers of single-child '
+       'parents',
+       [(P+'type_assignment/marker_cache_v2.py',
+         "        if not len(children) > 1:\n",
+         "        if not len(children) > 0:\n")],
+       'R-FOLD/single-child-exempt', 'validate_marker_lookup')
+mutant('C08-two-children-exempt', 'C08',
+       'serialize_markers treats two-child parents as trivial',
+       [(P+'type_assignment/marker_cache_v2.py',
+         "                if len(taxonomy_tree.children(level=level, "
+         "node=node)) < 2:",
+         "                if len(taxonomy_tree.children(level=level, "
+         "node=node)) < 3:")],
+       'R-FOLD/single-child-exempt', 'serialize_markers')
+mutant('C08-patch-unrestricted', 'C08',
+       'ancestor markers are added without restricting to query genes',
+       [(P+'type_assignment/marker_cache_v2.py',
+         "                    new_markers = query_gene_names.intersection("
+         "new_markers)\n"
+         "                    new_markers = list(new_markers)\n",
+         "                    new_markers = list(new_markers)\n")],
+       'R-PROV/patch-restricted-to-query')
+twin('C08-twin-child-test-eq', 'C08',
+     'single-child test written as == 1',
+     [(P+'type_assignment/marker_cache_v2.py',
+       "        if not len(children) > 1:\n",
+       "        if len(children) <= 1:\n")])
+twin('C08-twin-arms-order', 'C08',
+     'log conditional written the other way round',
+     [(P+'type_assignment/marker_cache_v2.py',
+       "        msg += f\"{missing_reference_markers}\\n\"\n"
+       "        if log is None:\n"
+       "            raise RuntimeError(msg)\n"
+       "        else:\n"
+       "            log.error(msg)\n",
+       "        msg += f\"{missing_reference_markers}\\n\"\n"
+       "        if log is not None:\n"
+       "            log.error(msg)\n"
+       "        else:\n"
+       "            raise RuntimeError(msg)\n")])
